@@ -9,6 +9,22 @@ BASELINE = ("cd /repo && env -u PYCRAFT_VERIF /venv/bin/python -m pytest -ra -q 
             "--timeout=900 --continue-on-collection-errors")
 
 CHECKS = {
+    'C12': dict(
+        technique='TLA+ model of concurrent writers (ConnWriter.tla) with all interleavings checked by TLC (the variant without the '
+                  'lock must fail); the real Connection with 1-4 user threads under preemption-bounded and seeded random schedules of '
+                  'a deterministic scheduler, every socket send mapped onto the frames an independent peer decoded, validated '
+                  'against the contract Trace_Writer.tla by TLC (I->S)',
+        text='ConnWriter.tla has one action per lock, queue and send operation of write_packet (queued / forced), the networking '
+             'thread\'s write loop and disconnect (flush or immediate); TLC checks FramesContiguous, ExactlyOnce, QueuedFifo, '
+             'SendOnlyUnderLock, FlushBeforeClose, NothingAfterImmediate and termination under all interleavings. Real executions '
+             '(plugin messages with payload sizes around the threshold, compression and AES/CFB8 on or off, a disconnect somewhere) are '
+             'scheduled at every lock / queue / socket / thread operation; each send event carries the lock owner, is located in the '
+             'byte stream the peer deframed, and the contract rejects a send without the lock, interleaved or split frames, duplicates, '
+             'per-thread reordering, a close before the flush, bytes after an immediate disconnect, lost forced writes, and an '
+             'undecodable stream.',
+        note='Trusted: TLC, scheduler and virtual primitives, CPython deque atomicity, the peer\'s deframer. Writes issued after the '
+             'connection has been closed are outside the contract.',
+        design='5/C12'),
     'C16': dict(
         technique='TLA+ model of the connection lifecycle (ConnLifecycle.tla) with all interleavings checked by TLC (invariants, action '
                   'properties, liveness; the pre-fix code must fail); single-thread histories replayed into the real object (S->I); '
